@@ -1,7 +1,289 @@
-/- Driver entry for property C01: one request payload in, one canonical response line out. -/
-import Molli.Util.Basic
-namespace Molli.Driver.C01
+/-
+Driver for the codec model (C01).  One request line, one response line; tokens separated by blanks.
 
-def handle (_payload : String) : String := "err:not-implemented"
+values (msgpack data model):
+   n | t | f | i<int> | d<16 hex: float64 bits> | e<8 hex: float32 bits> | s<utf8 hex or -> | b<hex or ->
+   L<k> v*k (list) | T<k> v*k (tuple) | M<k> (key value)*k (dict, insertion order)
+float arrays:  X<k> followed by k tokens of 16 hex digits (float64 bits)
+record:  name charge mult attrib  A<n> (9 values per atom, order of `AField.all`)
+         B<n> (7 values per bond: a1 a2 label btype stereo f_order attrib)
+         molecule:  R<n> (X<3> row)*n   X<n> charges
+         ensemble:  Q<nc> (R<n> (X<3> row)*n)*nc   X<nc> weights   R<nc> (X<n> row)*nc
+schema:  S <na> afield*na <nb> bfield*nb <nt> tfield*nt  D (9 atom default values) (7 bond default values)
+
+requests
+   N <value>                         ->  <value after a msgpack round trip>
+   mol <schema> <record>             ->  ok B <hex of the stored bytes> W <wire value> K <record read back>
+                                         |  err:<kind> B <hex> W <wire value>
+   ens <schema> <record>             ->  likewise
+   ver <hex of the first 16 bytes of the file | none>   ->  1 | 2
+   pack <value>                      ->  <hex of msgpack.dumps(value)> | unpackable
+   unpack <hex>                      ->  <value msgpack.loads gives> | none
+-/
+import Molli.Util.Basic
+import Molli.Model.Codec
+import Molli.Model.Msgpack
+namespace Molli.Driver.C01
+open Molli.Util Molli.Model.Codec Molli.Model.Msgpack
+
+/-! ### printing -/
+
+def hex64 (x : UInt64) : String :=
+  String.ofList ((List.range 16).map (fun i => hexDigit ((x.toNat / 16 ^ (15 - i)) % 16)))
+
+def hex32 (x : UInt32) : String :=
+  String.ofList ((List.range 8).map (fun i => hexDigit ((x.toNat / 16 ^ (7 - i)) % 16)))
+
+mutual
+def showVal : MVal → List String
+  | .nil => ["n"]
+  | .bool b => [if b then "t" else "f"]
+  | .int i => ["i" ++ toString i]
+  | .f64 b => ["d" ++ hex64 b]
+  | .f32 b => ["e" ++ hex32 b]
+  | .str s => ["s" ++ hexTok s]
+  | .bin b => ["b" ++ hexTok b]
+  | .arr isList l => ((if isList then "L" else "T") ++ toString l.length) :: showVals l
+  | .map l => ("M" ++ toString l.length) :: showPairs l
+def showVals : List MVal → List String
+  | [] => []
+  | v :: vs => showVal v ++ showVals vs
+def showPairs : List (MVal × MVal) → List String
+  | [] => []
+  | (k, v) :: r => showVal k ++ showVal v ++ showPairs r
+end
+
+def showX (xs : List F64) : List String := ("X" ++ toString xs.length) :: xs.map hex64
+def showR (rs : List (List F64)) : List String := ("R" ++ toString rs.length) :: (rs.map showX).flatten
+
+def showAB (atoms : List AtomRec) (bonds : List BondRec) : List String :=
+  ("A" ++ toString atoms.length) :: (atoms.map (fun a => (AField.all.map (fun f => showVal (a.get f))).flatten)).flatten
+  ++ ("B" ++ toString bonds.length) :: (bonds.map (fun b => (BField.all.map (fun f => showVal (b.get f))).flatten)).flatten
+
+def showMol (m : MolRec) : List String :=
+  showVal m.name ++ showVal m.charge ++ showVal m.mult ++ showVal m.attrib ++ showAB m.atoms m.bonds
+  ++ showR m.coords ++ showX m.charges
+
+def showEns (e : EnsRec) : List String :=
+  showVal e.name ++ showVal e.charge ++ showVal e.mult ++ showVal e.attrib ++ showAB e.atoms e.bonds
+  ++ ("Q" ++ toString e.coords.length) :: (e.coords.map showR).flatten ++ showX e.weights ++ showR e.charges
+
+def errName : Err → String
+  | .notTuple => "not-tuple" | .arity => "arity" | .missing => "missing" | .type => "type"
+  | .shape => "shape" | .index => "index"
+
+/-! ### parsing (fuel = number of tokens; every step consumes one) -/
+
+abbrev P (α : Type) := List String → Option (α × List String)
+
+def natOfHex? (cs : List Char) : Option Nat :=
+  cs.foldlM (fun acc c => (hexVal? c).map (fun d => acc * 16 + d)) 0
+
+def headTail (t : String) : Option (Char × List Char) :=
+  match t.toList with
+  | c :: r => some (c, r)
+  | [] => none
+
+def bytesTok? (r : List Char) : Option Bytes :=
+  if r == ['-'] then some [] else bytesOfHexChars r
+
+mutual
+def parseVal : Nat → P MVal
+  | 0, _ => none
+  | _, [] => none
+  | fuel + 1, t :: ts =>
+    match headTail t with
+    | none => none
+    | some (c, r) =>
+      match c with
+      | 'n' => if r.isEmpty then some (.nil, ts) else none
+      | 't' => if r.isEmpty then some (.bool true, ts) else none
+      | 'f' => if r.isEmpty then some (.bool false, ts) else none
+      | 'i' => (String.ofList r).toInt?.map (fun i => (.int i, ts))
+      | 'd' => if r.length = 16 then (natOfHex? r).map (fun n => (.f64 (UInt64.ofNat n), ts)) else none
+      | 'e' => if r.length = 8 then (natOfHex? r).map (fun n => (.f32 (UInt32.ofNat n), ts)) else none
+      | 's' => (bytesTok? r).map (fun b => (.str b, ts))
+      | 'b' => (bytesTok? r).map (fun b => (.bin b, ts))
+      | 'L' => do
+          let n ← (String.ofList r).toNat?
+          let (xs, ts') ← parseVals fuel n ts
+          pure (.arr true xs, ts')
+      | 'T' => do
+          let n ← (String.ofList r).toNat?
+          let (xs, ts') ← parseVals fuel n ts
+          pure (.arr false xs, ts')
+      | 'M' => do
+          let n ← (String.ofList r).toNat?
+          let (xs, ts') ← parsePairs fuel n ts
+          pure (.map xs, ts')
+      | _ => none
+def parseVals : Nat → Nat → P (List MVal)
+  | _, 0, ts => some ([], ts)
+  | 0, _ + 1, _ => none
+  | fuel + 1, n + 1, ts => do
+      let (v, ts1) ← parseVal fuel ts
+      let (vs, ts2) ← parseVals fuel n ts1
+      pure (v :: vs, ts2)
+def parsePairs : Nat → Nat → P (List (MVal × MVal))
+  | _, 0, ts => some ([], ts)
+  | 0, _ + 1, _ => none
+  | fuel + 1, n + 1, ts => do
+      let (k, ts1) ← parseVal fuel ts
+      let (v, ts2) ← parseVal fuel ts1
+      let (r, ts3) ← parsePairs fuel n ts2
+      pure ((k, v) :: r, ts3)
+end
+
+def pVal : P MVal := fun ts => parseVal (2 * ts.length + 2) ts
+def pVals (n : Nat) : P (List MVal) := fun ts => parseVals (2 * ts.length + 2) n ts
+
+/-- `<prefix><n>` -/
+def pCount (pre : Char) : P Nat
+  | t :: ts =>
+    match headTail t with
+    | some (c, r) => if c == pre then (String.ofList r).toNat?.map (fun n => (n, ts)) else none
+    | none => none
+  | [] => none
+
+def pRepeat {α : Type} (p : P α) : Nat → P (List α)
+  | 0, ts => some ([], ts)
+  | n + 1, ts => do
+      let (x, ts1) ← p ts
+      let (xs, ts2) ← pRepeat p n ts1
+      pure (x :: xs, ts2)
+
+def pHex64 : P F64
+  | t :: ts => if t.length = 16 then (natOfHex? t.toList).map (fun n => (UInt64.ofNat n, ts)) else none
+  | [] => none
+
+def pX : P (List F64) := fun ts => do
+  let (n, ts1) ← pCount 'X' ts
+  pRepeat pHex64 n ts1
+
+def pR : P (List (List F64)) := fun ts => do
+  let (n, ts1) ← pCount 'R' ts
+  pRepeat pX n ts1
+
+def pAtom : P AtomRec := fun ts => do
+  let (vs, ts1) ← pVals 9 ts
+  pure (AtomRec.ofList vs, ts1)
+
+def pBond : P BondRec := fun ts => do
+  let (vs, ts1) ← pVals 7 ts
+  pure (BondRec.ofList vs, ts1)
+
+def pAB : P (List AtomRec × List BondRec) := fun ts => do
+  let (na, ts1) ← pCount 'A' ts
+  let (atoms, ts2) ← pRepeat pAtom na ts1
+  let (nb, ts3) ← pCount 'B' ts2
+  let (bonds, ts4) ← pRepeat pBond nb ts3
+  pure ((atoms, bonds), ts4)
+
+def pMol : P MolRec := fun ts => do
+  let (hd, ts1) ← pVals 4 ts
+  let ((atoms, bonds), ts2) ← pAB ts1
+  let (coords, ts3) ← pR ts2
+  let (charges, ts4) ← pX ts3
+  pure ({ name := hd.getD 0 .nil, charge := hd.getD 1 .nil, mult := hd.getD 2 .nil, attrib := hd.getD 3 .nil,
+          atoms := atoms, bonds := bonds, coords := coords, charges := charges }, ts4)
+
+def pEns : P EnsRec := fun ts => do
+  let (hd, ts1) ← pVals 4 ts
+  let ((atoms, bonds), ts2) ← pAB ts1
+  let (nc, ts3) ← pCount 'Q' ts2
+  let (coords, ts4) ← pRepeat pR nc ts3
+  let (weights, ts5) ← pX ts4
+  let (charges, ts6) ← pR ts5
+  pure ({ name := hd.getD 0 .nil, charge := hd.getD 1 .nil, mult := hd.getD 2 .nil, attrib := hd.getD 3 .nil,
+          atoms := atoms, bonds := bonds, coords := coords, weights := weights, charges := charges }, ts6)
+
+def aField? : String → Option AField
+  | "element" => some .element | "isotope" => some .isotope | "label" => some .label
+  | "atype" => some .atype | "stereo" => some .stereo | "geom" => some .geom
+  | "formal_charge" => some .formal_charge | "formal_spin" => some .formal_spin
+  | "attrib" => some .attrib | "other" => some .other | _ => none
+
+def bField? : String → Option BField
+  | "a1" => some .a1 | "a2" => some .a2 | "label" => some .label | "btype" => some .btype
+  | "stereo" => some .stereo | "f_order" => some .f_order | "attrib" => some .attrib
+  | "other" => some .other | _ => none
+
+def tField? : String → Option TField
+  | "name" => some .name | "n_conformers" => some .n_conformers | "n_atoms" => some .n_atoms
+  | "n_bonds" => some .n_bonds | "charge" => some .charge | "mult" => some .mult
+  | "atoms" => some .atoms | "bonds" => some .bonds | "coords" => some .coords
+  | "weights" => some .weights | "atomic_charges" => some .atomic_charges | "attrib" => some .attrib
+  | "skip" => some .skip | "other" => some .other | _ => none
+
+def pNames {α : Type} (f : String → Option α) : P (List α)
+  | t :: ts => do
+      let n ← t.toNat?
+      if ts.length < n then none else do
+        let xs ← (ts.take n).mapM f
+        pure (xs, ts.drop n)
+  | [] => none
+
+def pLit (s : String) : P Unit
+  | t :: ts => if t == s then some ((), ts) else none
+  | [] => none
+
+def pSchema : P Schema := fun ts => do
+  let (_, ts0) ← pLit "S" ts
+  let (ao, ts1) ← pNames aField? ts0
+  let (bo, ts2) ← pNames bField? ts1
+  let (to, ts3) ← pNames tField? ts2
+  let (_, ts4) ← pLit "D" ts3
+  let (ad, ts5) ← pAtom ts4
+  let (bd, ts6) ← pBond ts5
+  pure ({ atom := ao, bond := bo, top := to, atomDflt := ad, bondDflt := bd }, ts6)
+
+/-! ### requests -/
+
+def join (ts : List String) : String := " ".intercalate ts
+
+def handle (payload : String) : String :=
+  match words payload with
+  | "N" :: ts =>
+    match pVal ts with
+    | some (v, []) => join (showVal (N v))
+    | _ => "err:bad-request"
+  | "mol" :: ts =>
+    match pSchema ts with
+    | some (S, ts1) =>
+      match pMol ts1 with
+      | some (m, []) =>
+        let w := N (serMol S m)
+        match deserMol S w with
+        | .ok m' => join (["ok", "B", hexTok (pack (serMol S m)), "W"] ++ showVal w ++ ["K"] ++ showMol m')
+        | .error e => join (["err:" ++ errName e, "B", hexTok (pack (serMol S m)), "W"] ++ showVal w)
+      | _ => "err:bad-record"
+    | none => "err:bad-schema"
+  | "ens" :: ts =>
+    match pSchema ts with
+    | some (S, ts1) =>
+      match pEns ts1 with
+      | some (e, []) =>
+        let w := N (serEns S e)
+        match deserEns S w with
+        | .ok e' => join (["ok", "B", hexTok (pack (serEns S e)), "W"] ++ showVal w ++ ["K"] ++ showEns e')
+        | .error er => join (["err:" ++ errName er, "B", hexTok (pack (serEns S e)), "W"] ++ showVal w)
+      | _ => "err:bad-record"
+    | none => "err:bad-schema"
+  | "pack" :: ts =>
+    match pVal ts with
+    | some (v, []) => if packable v then hexTok (pack v) else "unpackable"
+    | _ => "err:bad-request"
+  | ["unpack", h] =>
+    match bytesOfHex? h with
+    | some b => match loads b with
+      | some v => join (showVal v)
+      | none => "none"
+    | none => "err:bad-request"
+  | ["ver", h] =>
+    if h == "none" then toString (codecVersion none)
+    else match bytesOfHex? h with
+      | some b => toString (codecVersion (some b))
+      | none => "err:bad-request"
+  | _ => "err:bad-request"
 
 end Molli.Driver.C01
